@@ -403,7 +403,11 @@ impl<Aux> Vm<'_, Aux> {
                     })?;
                 }
                 Instruction::SetProperty => {
-                    let [key, mut instance, value] = self.runtime_data.value_stack.pop_n::<3>();
+                    // the operands stay on the stack, where the collector finds them, while the
+                    // table grows
+                    let stack = &self.runtime_data.value_stack;
+                    let [key, mut instance, value] =
+                        [stack.peek_last(0), stack.peek_last(1), stack.peek_last(2)];
                     let table = get_table_mut(&mut instance).map_err(|err| {
                         payload_to_error(err, src_ptr, &self.runtime_data.call_stack)
                     })?;
@@ -416,6 +420,7 @@ impl<Aux> Vm<'_, Aux> {
                         .map_err(|err| {
                             payload_to_error(err, src_ptr, &self.runtime_data.call_stack)
                         })?;
+                    self.runtime_data.value_stack.pop_n::<3>();
                 }
                 Instruction::BeginForEach => {
                     instr_execution::begin_for_each(self, &program.bytecode, instr_ptr).map_err(
@@ -669,7 +674,10 @@ impl<Aux> Vm<'_, Aux> {
                     payload_to_error(err, src_ptr, &self.runtime_data.call_stack)
                 })?,
                 Instruction::NthRow => {
-                    let [i, mut instance] = self.runtime_data.value_stack.pop_n::<2>();
+                    // the operands stay on the stack, where the collector finds them, while the
+                    // row is allocated
+                    let stack = &self.runtime_data.value_stack;
+                    let [i, mut instance] = [stack.peek_last(0), stack.peek_last(1)];
                     let table = get_table_mut(&mut instance).map_err(|err| {
                         payload_to_error(err, src_ptr, &self.runtime_data.call_stack)
                     })?;
@@ -709,6 +717,7 @@ impl<Aux> Vm<'_, Aux> {
                         let v = self.init_string("value")?;
                         row_table.insert(Value::Object(k.0), key)?;
                         row_table.insert(Value::Object(v.0), value)?;
+                        self.runtime_data.value_stack.pop_n::<2>();
                         self.stack_push(Value::Object(row.0))?;
                         Ok(())
                     })()
@@ -717,14 +726,17 @@ impl<Aux> Vm<'_, Aux> {
                     })?;
                 }
                 Instruction::AppendTable => {
-                    let mut instance = self.stack_pop();
-                    let value = self.stack_pop();
+                    // the operands stay on the stack, where the collector finds them, while the
+                    // table grows
+                    let mut instance = self.runtime_data.value_stack.peek_last(0);
+                    let value = self.runtime_data.value_stack.peek_last(1);
                     let table = get_table_mut(&mut instance).map_err(|err| {
                         payload_to_error(err, src_ptr, &self.runtime_data.call_stack)
                     })?;
                     table.append(value).map_err(|err| {
                         payload_to_error(err, src_ptr, &self.runtime_data.call_stack)
                     })?;
+                    self.runtime_data.value_stack.pop_n::<2>();
                 }
 
                 Instruction::PopTable => {
